@@ -710,7 +710,7 @@ def degenerate_projector_rule(ctx):
     repo = ctx.repo
     ci = repo.cls(PFM)
     f = ci.methods["_Eigen_values_vectors_projectors"]
-    r = ctx.rule("R17.12", "3-D closed-form eigen-decomposition on exact degenerate states (rational rotation of diag(a, b, c), every repetition pattern, mixed patterns inside one element): eigenvalues sorted, M_i symmetric rank-one orthogonal idempotents with sum_i lambda_i M_i == tensor", min_instances=2)
+    r = ctx.rule("R17.12", "3-D closed-form eigen-decomposition on exact degenerate states (rational rotation of diag(a, b, c), every repetition pattern, mixed patterns inside one element): eigenvalues sorted, M_i symmetric rank-one orthogonal idempotents with sum_i lambda_i M_i == tensor", min_instances=4)
     Qm = [[Q(2, 3), Q(-2, 3), Q(1, 3)], [Q(2, 3), Q(1, 3), Q(-2, 3)], [Q(1, 3), Q(2, 3), Q(2, 3)]]
     Id = [[Q(1) if i == j else Q(0) for j in range(3)] for i in range(3)]
     s2 = MQ.sqrt(2)
@@ -725,6 +725,9 @@ def degenerate_projector_rule(ctx):
     batches = [
         ("two equal largest / two equal smallest / three equal", [([-1, 2, 2], True), ([1, 1, 4], True), ([3, 3, 3], False)]),
         ("uniaxial / zero / two equal smallest negative", [([5, 0, 0], True), ([0, 0, 0], False), ([-2, -2, 1], True)]),
+        # uniaxial states along each GLOBAL axis (the double eigen-plane is a coordinate plane: one column of its projector is zero)
+        ("uniaxial tension along x / y / z", [([5, 0, 0], False), ([0, 5, 0], False), ([0, 0, 5], False)]),
+        ("uniaxial compression along x / y / z", [([-5, 0, 0], False), ([0, -5, 0], False), ([0, 0, -5], False)]),
     ]
     for label, pts in batches:
         r.instance(fn=f.qualname)
@@ -740,6 +743,12 @@ def degenerate_projector_rule(ctx):
         except XRaise as e:
             r.fail(f.qualname, f"degenerate:{label}", f.file, f.lineno, "_Eigen_values_vectors_projectors", f"{label}: raises {e}")
             continue
+        except Uninterpretable as e:
+            if "division by zero" in str(e):
+                # an exact 0 / 0 (or x / 0) between arrays: numpy does not raise, it returns NaN / inf
+                r.fail(f.qualname, f"degenerate:{label}", f.file, f.lineno, "_Eigen_values_vectors_projectors", f"one element, Gauss points {label}: {str(e).split(': ', 1)[0]}: an exact division by zero (NaN in floating point): the eigenprojectors, hence the split stiffness, stress and energy, are not finite at that state")
+                continue
+            raise
         vals = XArray.from_nested(vals)
         Ms = [XArray.from_nested(m) for m in list_M]
         bad = None
